@@ -1,6 +1,6 @@
 #!/bin/bash
 # usage: km_round.sh <suffix e.g. r3>  -> one line per seed: caught-by rules
-for id in C02 C03 C04 C05 C06 C07 C08 C10 C11 C12 C13 C14 C15 C16 C17; do for ab in a b; do
+for id in C01 C02 C03 C04 C05 C06 C07 C08 C09 C10 C11 C12 C13 C14 C15 C16 C17; do for ab in a b; do
   p=/tmp/seed/${id}$1/seed/$ab/patch.diff; [ -f $p ] || continue
   r=$(/verif/tools/kill_matrix.sh $p | grep -E "^VIOLATION|NOAPPLY|ENGINE" | sed -E 's/VIOLATION property=C[0-9]+ (C[0-9]+_[A-Za-z0-9]+).*/\1/' | sort -u | tr '\n' ' ')
   echo "${id}$1-$ab: $r"
